@@ -228,10 +228,11 @@ def where_of(tb):
     return best or "?"
 
 
-def run_text(text, opt="", record=False, limit=20.0, cpu=False):
+def run_text(text, opt="", record=False, limit=20.0, cpu=True):
     """run the real code on text; returns the outcome record (dict) and the token events (or None).
-    limit: seconds of wall time (cpu=False) or of process CPU time (cpu=True) before the call is
-    abandoned (kind "other", exc "Hang")."""
+    limit: seconds of process CPU time (cpu=True; the default - the machine is shared and a call
+    that does not terminate burns CPU) or of wall time (cpu=False) before the call is abandoned
+    (kind "other", exc "Hang")."""
     global _rec
     ld = _loader(opt)
     ev = [] if (record and _W.get("seam")) else None
@@ -262,7 +263,7 @@ def run_text(text, opt="", record=False, limit=20.0, cpu=False):
         except Hang:
             out["kind"] = "other"
             out["exc"] = "Hang"
-            out["where"] = "no-termination-within-%ds" % int(limit)
+            out["where"] = "no-termination-within-%ds-cpu" % int(limit)
         except Exception as ex:  # noqa: BLE001
             out["kind"] = "other"
             out["exc"] = type(ex).__name__
@@ -292,6 +293,8 @@ def classify(text, opt="", record=False, limit=20.0):
     """-> (outcome record, events or None).  A non-Lark exception is re-run with the seam recording
     so that its signature can name the token context."""
     out, ev = run_text(text, opt, record, limit)
+    if out["exc"] == "Hang":                      # confirm before calling it non-termination
+        out, ev = run_text(text, opt, record, 3 * limit)
     if out["kind"] == "other" and out["exc"] != "Hang" and not record and _W.get("seam"):
         out2, ev2 = run_text(text, opt, True, limit)
         ctx = loop_context(ev2)
@@ -557,6 +560,8 @@ def class_batch(job):
         item = data[idx]
         if isinstance(item, dict):
             soup, allowed, rtype = item["s"], item.get("allowed", default), item.get("t")
+        elif isinstance(item, str):             # compact form of a plain soup
+            soup, allowed, rtype = item.split(), default, None
         else:
             soup, allowed, rtype = item, default, None
         for rep in range(job["texts"]):
